@@ -368,6 +368,9 @@ func c19OwnSpecs(quick bool) []*wSpec {
 				return []string{"send|0|3|0", "mint|0|4", "restore|0"}
 			}, Probe: c19Probe(false), Depth: 1, NoInvariants: true},
 			{Prop: "C19", Name: "C19-over300-q", Cfg: two, Init: c19Over300(), Menu: func(*wworld.World) []string { return nil }, Probe: c19Probe(false), Depth: 0, NoInvariants: true},
+			// every kind of operation that derives outputs, started at a counter beyond 300 (what an operation adds to the
+			// stored counter must not depend on how large the counter already is)
+			{Prop: "C19", Name: "C19-high-counter-q", Cfg: two, Init: c19HighCounter(), Menu: c19HighCounterMenu(false), Probe: c19Probe(false), Depth: 2, NoInvariants: true},
 			{Prop: "C19", Name: "C19-long-q", Cfg: two, Init: c19LongN(11), Menu: func(*wworld.World) []string { return nil }, Probe: c19Probe(false), Depth: 0, NoInvariants: true},
 		}
 	}
@@ -399,6 +402,7 @@ func c19OwnSpecs(quick bool) []*wSpec {
 			}
 			return nil
 		}, Probe: c19Probe(false), Depth: 3, NoInvariants: true},
+		{Prop: "C19", Name: "C19-high-counter", Cfg: two, Init: c19HighCounter(), Menu: c19HighCounterMenu(true), Probe: c19Probe(false), Depth: 3, NoInvariants: true},
 		{Prop: "C19", Name: "C19-long", Cfg: two, Init: c19Long(), Menu: func(*wworld.World) []string { return nil }, Probe: c19Probe(true), Depth: 0, NoInvariants: true},
 	}
 }
@@ -411,6 +415,41 @@ func c19Over300() []string {
 	}
 	// ... and a rotation after all that: the new keyset's outputs must be found from counter 0
 	return append(ops, "restore|0", "mint|0|255", "send|0|100|1", "recv|1|0|0", "restore|0", "mint|0|7", "rotate|a|100", "mint|0|7")
+}
+
+// c19HighCounter: 420 outputs on one keyset (21 x 20) and no restore yet.
+func c19HighCounter() []string {
+	var ops []string
+	for i := 0; i < 21; i++ {
+		ops = append(ops, "mint|0|1048575")
+	}
+	return ops
+}
+
+// c19HighCounterMenu: one operation of every kind that makes the wallet derive outputs (plain / fee-including / locked
+// sends, HTLC, melt with change, mint, receive), all on wallet 0.
+func c19HighCounterMenu(full bool) func(w *wworld.World) []string {
+	return func(w *wworld.World) []string {
+		ops := []string{"mint|0|7"}
+		if len(w.Tokens) < 2 {
+			ops = append(ops, "send|0|3|0", "sendpk|0|1|2", "htlc|0|2")
+			if full {
+				ops = append(ops, "send|0|5|1", "sendpk|0|1|2|A")
+			}
+		}
+		if len(w.Wallets[0].Melts) < 1 {
+			ops = append(ops, "melt|0|4|S")
+			if full {
+				ops = append(ops, "melt|0|4|P")
+			}
+		}
+		for ti, t := range w.Tokens {
+			if t.Kind == "htlc" || t.Kind == "plain" {
+				ops = append(ops, fmt.Sprintf("recv|0|%d|0", ti))
+			}
+		}
+		return ops
+	}
 }
 
 func c19ThreeBatches() []string {
